@@ -31,6 +31,10 @@ def insDesc (key : α → Nat) (a : α) : List α → List α
 
 def sortDesc (key : α → Nat) (l : List α) : List α := l.foldr (insDesc key) []
 
+/-- `Signing.ValidCoordinators()`: the key holders of the key share — the relayer's local view of the network (its
+    libp2p peerstore) is an argument only to say that it is ignored -/
+def validCoordinators (holders _peerstore : List α) : List α := holders
+
 /-- static elector: first peer in election order; `none` models `peer.ID("")` for an empty list -/
 def staticCoordinator (key : α → Nat) (l : List α) : Option α := (sortDesc key l).head?
 
@@ -102,6 +106,30 @@ def SubsetOk (cfg : ICfg α) (arrivals : List α) (S : List α) : Prop :=
 
 instance (cfg : ICfg α) (arrivals S : List α) : Decidable (SubsetOk cfg arrivals S) := by
   unfold SubsetOk; infer_instance
+
+/-- first occurrences only -/
+def dedup : List α → List α
+  | [] => []
+  | x :: xs => if x ∈ dedup xs then dedup xs else x :: dedup xs
+
+/-- the distinct ready senders that count: key holders, not excluded, not the coordinator itself -/
+def eligibleReporters (cfg : ICfg α) (arrivals : List α) : List α :=
+  dedup (arrivals.filter fun p => decide (p ∈ cfg.holders) && decide (p ∉ cfg.excluded) && decide (p ≠ cfg.self))
+
+/-- threshold ≥ 1 and at least `t` distinct eligible reporters among the ready senders -/
+def enoughReady (cfg : ICfg α) (arrivals : List α) : Bool :=
+  decide (1 ≤ cfg.t) && decide (cfg.t ≤ (eligibleReporters cfg arrivals).length)
+
+/-- the C07 clause about the announcement as a whole, on ANY candidate outcome of the coordinator's collecting loop:
+    an announced subset satisfies `SubsetOk`; announcing nothing is only acceptable when too few eligible key holders
+    reported ready (the attempt must start once enough did) -/
+def AnnouncedOk (cfg : ICfg α) (arrivals : List α) (out : Option (List α)) : Prop :=
+  match out with
+  | some S => SubsetOk cfg arrivals S
+  | none => enoughReady cfg arrivals = false
+
+instance (cfg : ICfg α) (arrivals : List α) (out : Option (List α)) : Decidable (AnnouncedOk cfg arrivals out) := by
+  unfold AnnouncedOk; cases out <;> infer_instance
 
 end Initiate
 
